@@ -21,7 +21,7 @@ import math
 
 import numpy as np
 
-from contracts import C04_ghost, C04_gray, C04_native as N
+from contracts import C04_ghost, C04_gray, C04_native as N, C04_safety
 from vf import lean, native, pyvc
 
 
@@ -447,6 +447,7 @@ def check(run):
     lap = N.check_laplace(run)
     if lap is not None:
         N.report(run, lap[0], on_failed=_on_failed_vc)
+    C04_safety.check(run)
     C04_ghost.check(run)
     C04_gray.ON_FAILED[0] = lambda vc, r: _on_failed_gray(run, vc, r)
     C04_gray.check(run)
@@ -467,7 +468,7 @@ def check(run):
                "loop condition depends on a floating value (the translator refuses otherwise)")
     run.assume("unsigned arithmetic is verified under the stricter obligation that it never wraps")
     run.assume("the float instantiations of the two permanent kernels share the verified source text of the skeleton but are not "
-               "verified separately; torontonian / Pfaffian / hafnian kernels are covered only by the bounded accuracy check; 'no undefined behaviour' "
+               "verified separately; pfaffian_cpp<double> is verified for memory safety only (contracts/C04_safety.py); torontonian / Pfaffian / hafnian kernels are covered only by the bounded accuracy check; 'no undefined behaviour' "
                "of the floating kernels is not covered (sanitizers are a different family)")
     run.assume("OpenMP: the parallel loop body is verified for an arbitrary job index; its integer state is loop-local")
 
